@@ -72,12 +72,91 @@ def check_case(case):
     if d:
         v("analysis-differs:" + d[0], "SequenceParameters(%r).%s = %r but the normalised word %s gives %r" % (s, d[0], d[1], n, d[2]),
           normalised=n)
+    # the same residues in the same letter case handed over as a backend Sequence (no validation on that route):
+    # upper-casing and the bookkeeping derived from it must still agree with the normalised word
+    raw = "".join(c for c in s if not c.isspace())
+    if raw != n and raw.upper() == n and len(raw) == len(n):
+        try:
+            from localcider.backend.sequence import Sequence
+            from localcider.sequencePermutants import SequencePermutants
+            a2 = api_vector(SP(SeqObj=Sequence(raw)))
+            calls += len(a2)
+            d2 = diff(a2, ref_vec(n))
+            if d2:
+                v("analysis-differs(SeqObj route):" + d2[0], "SequenceParameters(SeqObj=Sequence(%r)).%s = %r but the normalised word %s "
+                  "gives %r" % (raw, d2[0], d2[1], n, d2[2]), normalised=n)
+            sp = SequencePermutants(raw).SeqObj
+            if (sp.seq, sp.countPos(), sp.countNeg()) != (n, sum(c in "KR" for c in n), sum(c in "DE" for c in n)):
+                v("analysis-differs(SequencePermutants route)", "SequencePermutants(%r): sequence/counts %r" % (raw, (sp.seq, sp.countPos(), sp.countNeg())),
+                  normalised=n)
+        except Exception as e:  # noqa
+            v("exception", "backend route for %r raised %r" % (raw, e))
     return out, "accepted", calls
+
+
+def crosstalk_cases():
+    """(files to parse first, strings to construct afterwards) and the reverse order, each in a freshly imported package."""
+    files = ["MKV 1LA\n12 KE\n", ">h\nAK E\n3 KA*\n", "MK\tV\n", "AK-E\n", "ak\n", "A1K2E3\n"]
+    strings = ["MKV1LA", "MKV\tLA", "MK V LA", "AK-E", "ake", "A1K", " K\nE ", "K*", "12", "KE3"]
+    return files, strings
+
+
+def shard_crosstalk(order):
+    import io
+    from ..engines.history import fresh_world
+    from ..refmodel.parser import ref_parse, ACCEPT, REJECT
+    acc = core.Acc()
+    fresh_world()
+    _vec.clear()
+    import localcider.backend.seqfileparser as P
+    from localcider.backend.seqfileparser import SequenceFileParser
+    files, strings = crosstalk_cases()
+    store = {}
+    P.open = lambda name, *a, **k: io.StringIO(store[name])
+
+    def do_files():
+        for i, text in enumerate(files):
+            store["f"] = text
+            verdict, exp, why = ref_parse(text)
+            acc.transitions += 1
+            try:
+                got = SequenceFileParser().parseSeqFile("f", silent=True)
+                ok = True
+            except Exception:  # noqa
+                ok, got = False, None
+            if verdict == ACCEPT and (not ok or got != exp):
+                acc.viol("file-parse-depends-on-earlier-strings", "after constructing strings, file %r parsed to %r (ok=%s), expected %r"
+                         % (text, got, ok, exp), {"kind": "crosstalk", "order": order, "text": text})
+            if verdict == REJECT and ok:
+                acc.viol("file-parse-depends-on-earlier-strings", "after constructing strings, malformed file %r was accepted as %r"
+                         % (text, got), {"kind": "crosstalk", "order": order, "text": text})
+
+    def do_strings():
+        for s_ in strings:
+            v, verdict, calls = check_case({"kind": "string", "s": s_, "crosstalk": order})
+            acc.transitions += calls
+            acc.out(verdict)
+            for x in v:
+                acc.viol(x["key"] + "(after parsing files)" if order == "files-first" else x["key"], x["what"],
+                         {"kind": "crosstalk", "order": order, "s": s_})
+    if order == "files-first":
+        do_files()
+        do_strings()
+    else:
+        do_strings()
+        do_files()
+    del P.open
+    acc.states += len(files) + len(strings)
+    acc.traces += 1
+    acc.evaluations += len(files) + len(strings)
+    return acc
 
 
 def shard(s):
     acc = core.Acc()
     kind = s[0]
+    if kind == "crosstalk":
+        return shard_crosstalk(s[1])
     if kind == "words":
         _, L, pre = s
         gen = ({"kind": "string", "s": "".join(t)} for t in _product(L, pre))
@@ -127,6 +206,7 @@ def run(tier, seed, t0):
     step = 0x40 if tier == "quick" else 0x400
     shards += [("insert", lo, min(top, lo + step)) for lo in range(0, top, step)]
     shards.append(("nonstring",))
+    shards += [("crosstalk", "files-first"), ("crosstalk", "strings-first")]
     shards = [s for s in shards if s[0] != "empty"]
     shards.sort(key=lambda s: -(s[1] if s[0] == "words" else 3))
     acc = core.pmap(shard, shards)
@@ -136,7 +216,9 @@ def run(tier, seed, t0):
              "B, 1, *, -, e-acute, NUL, dotless i, sharp s, >), every code point U+0000..U+%04X inserted at every position of 3 host "
              "sequences, and %d non-string arguments; oracle from the statement: with n = upper-cased input minus whitespace, "
              "construction succeeds iff n is a non-empty word over the 20 letters, then sequence/length/len equal n and a 32-entry "
-             "read-only API vector equals that of SequenceParameters(n); otherwise an exception; non-trivial = accepted strings "
+             "read-only API vector equals that of SequenceParameters(n) (also when the same mixed-case residues are handed over as a backend "
+             "Sequence / SequencePermutants); otherwise an exception; in a freshly imported package six sequence files are parsed before "
+             "ten strings are constructed, and the reverse; non-trivial = accepted strings "
              "that differ from their normal form" % (L, top - 1, len(NONSTR)),
         bounds={"L": L, "alphabet": len(SYMS), "codepoints": top, "hosts": HOSTS},
         assumptions=["str subclasses are not judged (the statement says non-strings are rejected and strings normalised)"],
@@ -144,4 +226,6 @@ def run(tier, seed, t0):
 
 
 def replay(case):
+    if case.get("kind") == "crosstalk":
+        return shard_crosstalk(case["order"]).violations
     return check_case(case)[0]
